@@ -265,11 +265,26 @@ def shape_extra(ctx: Ctx):
     return {"text": text, "points": pts}
 
 
+def names_cond_extra(ctx: Ctx):
+    """identifiers that contain the words a printer substitutes in the text it produces (`true` / `false` in C's `?:`, as a
+    prefix, a suffix and in the middle of a name), read inside Conditionals that are operands of a larger expression"""
+    rng = ctx.rng
+    pool = ["true_gain", "k_false", "x_true", "false_k", "truex", "nfalse", "true_value", "untrue", "falsetto", "is_true_k", "a_false_b"]
+    s1, s2, p1, p2, i1 = rng.sample(pool, 5)
+    text = (f"states({s1}=0.5, {s2}=-0.25)\nparameters({p1}=0.75, {p2}=2)\n"
+            f"{i1} = {p2} + Conditional(Gt({s1}, 0), {p1}*{s1}, {s2})\n"
+            f"d{s1}_dt = {i1} - {s1} + 2.0*Conditional(Lt({s2}, 0), {p2}, {p1})\n"
+            f"d{s2}_dt = -{s2}*Conditional(Ge({i1}, 1), {i1}, {s1}) + 1\n")
+    pts = [{s1: sx * rng.uniform(0.2, 2), s2: sy * rng.uniform(0.2, 2), p1: rng.uniform(-2, 2), p2: rng.uniform(0.5, 3), "t": 0.5, "dt": 0.01}
+           for sx, sy in ((1, 1), (-1, -1), (1, -1), (-1, 1))]
+    return {"text": text, "points": pts}
+
+
 def cond_extra(ctx: Ctx):
     """crafted families in rotation (every family gets its turn even in a short run)"""
     i = getattr(ctx, "_extra_turn", 0)
     ctx._extra_turn = i + 1
-    fams = [eq_extra, intpow_extra, c03_extra, cond_nest_extra, shape_extra, sign_extra, cond_nest_extra]
+    fams = [eq_extra, intpow_extra, c03_extra, cond_nest_extra, shape_extra, sign_extra, cond_nest_extra, names_cond_extra]
     return fams[(i + ctx.seed) % len(fams)](ctx)
 
 
